@@ -340,7 +340,7 @@ def run(ck, F, tier):
                       'conditions of its mechanism list, each necessary: S edge clamp in read_sample; L lerp and the half-sample split (folded over all vectors); B the three '
                       'interpolation forms of gather_block with their selecting conditions, sample geometry and cropping, and the fast path with the guard that makes it equal '
                       'to the per-sample path; G the six gather_block call sites (vector k, block offsets, chroma vector = average_sum_of_mvs of the four, planes paired); '
-                      'N no-reference => error; U not-coded / early-end handling and gather-before-IDCT order; and, re-run on this tree: vector reconstruction, chroma '
+                      'N no-reference => error; U not-coded / early-end handling and gather-before-IDCT order; UC a not-coded macroblock is an error exactly in I pictures (among I / P / disposable P); and, re-run on this tree: vector reconstruction, chroma '
                       'rounding, candidate table, median and the call-site wiring of the vector machinery (C12 A, B, D, E, F, M, W) and the residual-add form of all IDCT arms (C10 C).')
     ck.assumptions += ['end-to-end equality of decoded P pictures with the H.263 reconstruction is NOT decided', 'candidate geometry beyond the per-index table of C12 D is not decided']
     rule_s(ck, F); rule_l(ck, F); rule_b(ck, F); rule_g(ck, F); rule_u(ck, F); rule_uc(ck, F)
